@@ -23,6 +23,7 @@ RULE = ("Generated runs of fit(): tiny positive / complex / density model, start
         "periodic callbacks with different periods, or a range not starting at a multiple of a period, or a run cut short.")
 RULE_EXT = ('Extended as built: numpy integer indices, stop requested at an epoch end or inside a batch, a second run over the same / a fixed / the same range after clear_history, inspection after clear, up to 14 epochs, verbose evaluators, generator weighted toward several saves. Round 6: the last / past_values records a caller took from an evaluator survive clear_history() and a second run.')
 RULE_EXT += ' Round 10 (after an exception / long time axis): an earlier run in which a metric raises during one evaluation (caught): records hold exactly the completed evaluations; histories of 70-300 evaluations with and without a log file.'
+RULE_EXT += ' Round 11 (re-entrant use / feature interactions): a busy callback ahead of the recorder; a metric that inspects its own evaluator (number of records, last epoch and value) while it is being evaluated.'
 RULE = RULE + " " + RULE_EXT
 ASSUMPTIONS = ["observable statistics are compared with System.statistics evaluated by the recording callback under the same torch seed (their "
                "arithmetic is C13's business)", "files live in a per-case temporary directory"]
